@@ -244,6 +244,32 @@ def oracle(ctx):
             ctx.violation(j, case, expected=exp, actual=impl)
     ctx.counters['nontrivial'] = len(nt)
     ctx.sample({'template': cons[0][0]['src'], 'expected': cons[0][1]})
+    # the fallback can read `error`: class, value, and the line and column of the expression that failed — wherever on its line it starts
+    from chameleon import PageTemplate
+    FB = "string:${error.type.__name__}|${error.value}|${error.lineno}|${error.offset}"
+    ERR_SITES = ['<p tal:on-error="FB">${boom()}</p>', '<p tal:on-error="FB" tal:content="\nboom()\n">x</p>', '<div tal:on-error="FB">\n${boom()}</div>',
+                 '<div tal:on-error="FB"><i tal:define="a 1; b boom()">x</i></div>', '<div tal:on-error="FB">text\n   more <b tal:content="boom()"/></div>',
+                 '<p tal:on-error="FB" tal:attributes="title\nboom()">x</p>', '<p tal:on-error="FB">${\nboom()\n}</p>',
+                 '<ul tal:on-error="FB"><li tal:repeat="i [1, 2]">${i}\n${boom()}</li></ul>']
+
+    def boom():
+        raise ValueError('bang')
+    for site in ERR_SITES:
+        for pre in ('', 'first line\n', '\n\n  <hr/>'):
+            src = pre + site.replace('FB', FB)
+            off = src.index('boom()')
+            line = 1 + src[:off].count('\n')
+            col = off - (src[:off].rfind('\n') + 1)
+            tag = site[1:site.index(' ')]
+            want = '%s<%s>ValueError|bang|%d|%d</%s>' % (pre, tag, line, col, tag)
+            ctx.count('evaluations')
+            try:
+                got = PageTemplate(src)(boom=boom)
+            except Exception as e:
+                got = {'exc': type(e).__name__, 'msg': str(e).split('\n')[0][:100]}
+            if got != want:
+                ctx.violation('the fallback of tal:on-error reads error.type / value / lineno / offset of the expression that failed',
+                              {'src': src}, expected=want, actual=got)
     # D-13d: tal:on-error written on a metal:fill-slot element is dropped (the filler is stored before the handler is wrapped around it)
     r = pipeline.run_impl({'src': D13D, 'vars': []})
     if r.get('out') != D13D_EXPECT:
